@@ -980,10 +980,12 @@ def extract_block_as_fn(src, loc, spec, ed):
                 elif toks[j].text == "{" and not spec.get("expr_closure"):
                     hdr = " ".join(src.text[t.pos:toks[j].pos].split())
                     # ordinal counts block-bodied closures whose parameter list matches header_re
-                    if not spec.get("header_re") or re.search(spec["header_re"], hdr):
+                    hm = re.search(spec["header_re"], hdr) if spec.get("header_re") else None
+                    if not spec.get("header_re") or hm:
                         k += 1
                         if k == spec["closure"]:
                             b_open = j
+                            spec = _bind_header(spec, hm)
                             break
             i += 1
         if b_open is None:
